@@ -1636,7 +1636,9 @@ func (kmc *KeystoreManagerForPoC) ChangeRemark(accountID, newRemark string) erro
 			return err
 		}
 		// memory is refreshed only after the transaction has been committed
+		addrManager.mu.Lock()
 		addrManager.remark = newRemark
+		addrManager.mu.Unlock()
 		return nil
 	} else {
 		logging.CPrint(logging.ERROR, "account not exists",
